@@ -222,8 +222,17 @@ func parseBody(r io.Reader) (uint64, [][]byte, []byte, error) {
 		klog.Infof("read sizeline: %v", err)
 		return 0, nil, nil, err
 	}
-	var size uint64
-	if n, err := fmt.Sscanf(string(sizeLine), "old %d", &size); err != nil || n != 1 {
+	// The size line is exactly "old <decimal size>": fmt.Sscanf would also accept
+	// trailing junk ("old 5junk"), other separators ("old\t5") and digit-prefixed
+	// tokens ("old 0x10", "old 1_0"), silently reading a different size.
+	sizeStr, ok := strings.CutPrefix(string(sizeLine), "old ")
+	if !ok {
+		err := fmt.Errorf("malformed size line %q", sizeLine)
+		klog.Infof("scan sizeline: %v", err)
+		return 0, nil, nil, err
+	}
+	size, err := strconv.ParseUint(sizeStr, 10, 64)
+	if err != nil {
 		klog.Infof("scan sizeline: %v", err)
 		return 0, nil, nil, err
 	}
